@@ -96,6 +96,14 @@ func c06() {
 				n = 250 + r.Intn(20)
 			case 1:
 				n = 2 + r.Intn(3000)
+			case 2:
+				if r.Intn(12) == 0 {
+					// sizes just below the points at which a growing instruction list is reallocated (powers of two and the
+					// runtime's growth steps behind them): bridging then pushes the list across such a point
+					base := []int{1024, 2048, 4096, 4096, 4096, 5632, 6144, 7680, 8192, 10240, 16384}[r.Intn(11)]
+					n = base - 45 + r.Intn(50)
+					run.Count("label_programs_sized_around_a_reallocation_point", 1)
+				}
 			}
 			far := []float64{0, 0.02, 0.1, 0.5}[r.Intn(4)]
 			ops = vlib.GenLabelProgram(r, n, far, r.Intn(3) == 0)
